@@ -174,6 +174,10 @@ def hand_cases():
     # same-line map entries with comments
     out.append(prog("sameline_comments",
                     "stage S(\n    in  map x,\n    out int y,\n    src py \"s\",\n)\n\ncall S(\n    # about x\n    x = {\"a\": 1, \"b\": 2, \"c\": 3, \"d\": 4, \"e\": 5}, # trailing\n)\n"))
+    # a comment line inside a map literal followed by several entries on ONE source line
+    out.append(prog("sameline_entries_after_comment",
+                    "stage S(\n    in  map x,\n    in  map<int> y,\n    out int z,\n    src py \"s\",\n)\n\ncall S(\n    x = {\n        # about these entries\n"
+                    "        \"e\": 5, \"c\": 3, \"a\": 1, \"d\": 4, \"b\": 2, \"f\": 6,\n    },\n    y = {\n        # and these\n        \"q\": 1, \"p\": 2, \"r\": 3, \"o\": 4,\n        # more\n        \"n\": 5, \"m\": 6,\n    },\n)\n"))
     return out
 
 
